@@ -149,8 +149,30 @@ def setup(M):
             judge_add(M, name, a[0], vals, ret, name)
         return post
 
-    M.contract(DateTime, "add", post=dt_add(1, "dt.add"), label="DateTime.add")
-    M.contract(DateTime, "subtract", post=dt_add(-1, "dt.subtract"), label="DateTime.subtract")
+    def dt_raised(sign, name):
+        def exc(e, a, k, snap):
+            # the model has a representable answer well inside the range: raising is not "out of range"
+            vals = [sign * v if isinstance(v, (int, float)) else v for v in _bind(a, k)]
+            if not any(vals[:4]) or model(a[0], vals) is None:
+                return
+            M.check(name, False, f"C04/{name}:raised-{type(e).__name__}", f"{name} raised although the calendar model has a representable result",
+                    start=judge.desc(a[0]), amounts=dict(zip(NAMES, vals)), exc=repr(e)[:120])
+        return exc
+
+    def date_raised(sign, name):
+        def exc(e, a, k, snap):
+            if isinstance(a[0], DateTime):
+                return
+            vals = [sign * v if isinstance(v, (int, float)) else v for v in _bind(a, k, 4)]
+            e1 = date_model(a[0], vals)
+            if e1 is None or not (3 <= e1[0] <= 9997):
+                return
+            M.check(name, False, f"C04/{name}:raised-{type(e).__name__}", f"{name} raised although the calendar model has a representable result",
+                    start=repr(a[0]), amounts=vals[:4], exc=repr(e)[:120])
+        return exc
+
+    M.contract(DateTime, "add", post=dt_add(1, "dt.add"), exc=dt_raised(1, "dt.add"), label="DateTime.add")
+    M.contract(DateTime, "subtract", post=dt_add(-1, "dt.subtract"), exc=dt_raised(-1, "dt.subtract"), label="DateTime.subtract")
 
     def date_add(sign, name):
         def post(ret, a, k, snap):
@@ -165,8 +187,8 @@ def setup(M):
                     amounts=vals[:4], got=repr(ret), expected=exp)
         return post
 
-    M.contract(Date, "add", post=date_add(1, "date.add"), label="Date.add")
-    M.contract(Date, "subtract", post=date_add(-1, "date.subtract"), label="Date.subtract")
+    M.contract(Date, "add", post=date_add(1, "date.add"), exc=date_raised(1, "date.add"), label="Date.add")
+    M.contract(Date, "subtract", post=date_add(-1, "date.subtract"), exc=date_raised(-1, "date.subtract"), label="Date.subtract")
 
     def ad_post(ret, a, k, snap):
         d0 = a[0]
@@ -263,7 +285,7 @@ def cases(M):
                     yield {"k": "land", "z": zn, "w": w, "ti": i, "pk": pk, "amt": _amount(r), "via": r.randrange(6)}
     # month shapes in UTC / naive / fixed / Date
     reps = 8 if thorough else 1
-    for y in (1999, 2000, 2019, 2020, 2100, 1, 9998, 1600):
+    for y in (1999, 2000, 2019, 2020, 2100, 1, 9998, 1600, 1800, 2200, 1900, 2400, 1000, 200) if thorough else (1999, 2000, 2020, 2100, 1, 9998, 1800, 2200, 1000):
         for mo in range(1, 13):
             for d in (1, 15, 27, 28, 29, 30, 31):
                 if d > cal.dim(y, mo):
